@@ -148,6 +148,11 @@ def limit_programs(dev):
             {"op": "remove", "lw": P, "wells": L([(1, 1)]), "vols": S(0), "label": "zero from empty"},  # 0 - 0 < min 2: refused
             {"op": "remove", "lw": T, "wells": L([(0, 0), (1, 0), (2, 0)]), "vols": S(4), "label": None},  # 12 - 12 = 0 < 1: third underflows
             {"op": "remove", "lw": T, "wells": L([(2, 0)]), "vols": S(BIG), "label": None},
+            # one virtual well named twice with another row of the same column in between: 12 - 4 - 4 - 4 = 0 < 1
+            {"op": "add", "lw": T, "wells": L([(0, 0)]), "vols": S(8), "label": "refill"},
+            {"op": "remove", "lw": T, "wells": L([(0, 0), (1, 0), (0, 0)]), "vols": L([4, 4, 4]), "label": "A B A"},
+            {"op": "aspirate", "lw": T, "wells": L([(2, 0), (0, 0), (2, 0), (1, 0)]), "vols": L([1, 1, 1, 1]), "label": "C A C B: 4 - 4 = 0 < 1"},
+            {"op": "add", "lw": T, "wells": L([(0, 1), (1, 1), (0, 1)]), "vols": L([5, 5, 5]), "label": "A B A: 15 > 12"},
         ], unit=unit)
     big = [gen.mk_plate("waste", 1, 2, 100000, 25000000, [24999000, 100500]), gen.mk_trough("res", 8, 1, 1000000, 250000000, [249999990])]
     for d in (dev,):
@@ -307,6 +312,13 @@ def shape_programs(dev):
         {"op": "transfer", "src": T, "sw": L([]), "dst": P, "dw": L([(0, 0)]), "vols": L([]), "label": "no source", "wash": 1},
         {"op": "transfer", "src": T, "sw": L([(0, 0)]), "dst": P, "dw": L([(0, 0)]), "vols": L([]), "label": "no volumes", "wash": 1},
         {"op": "transfer", "src": T, "sw": L([(0, 0)]), "dst": P, "dw": L([(3, 5)]), "vols": S(1), "label": "fine", "wash": 1},
+        # one volume for several wells, spelled as a list (or a 1 x 1 table) with one entry
+        {"op": "dispense", "lw": P, "wells": L([(0, 2), (1, 2), (2, 3)]), "vols": L([2]), "label": "one-element list, three wells"},
+        {"op": "aspirate", "lw": P, "wells": L([(0, 2), (1, 2), (2, 3)]), "vols": L([1]), "label": "and back"},
+        {"op": "add", "lw": P, "wells": L([(0, 3), (1, 3)]), "vols": M([[3]]), "label": "1 x 1 table"},
+        {"op": "remove", "lw": P, "wells": M([[(0, 3)], [(1, 3)]]), "vols": L([1]), "label": "column table, one-element list"},
+        {"op": "dispense", "lw": T, "wells": L([(0, 0), (1, 0), (2, 1)]), "vols": L([2]), "label": "trough"},
+        {"op": "transfer", "src": T, "sw": L([(0, 0), (1, 0)]), "dst": P, "dw": L([(2, 4), (3, 4)]), "vols": L([3]), "label": "transfer, one-element list", "wash": 1},
     ])
     prog("mismatch", [
         {"op": "add", "lw": P, "wells": L([(0, 0), (1, 0), (2, 0)]), "vols": L([1, 2]), "label": "too few"},
@@ -411,6 +423,8 @@ def reject_programs(dev):
     tab = M([[(0, 0), (0, 1), (0, 2)], [(1, 0), (1, 1), (1, 2)]])
     tab2 = M([[(2, 0), (2, 1), (2, 2)], [(0, 3), (1, 3), (2, 3)]])
     cases += [
+        ("vols-2-of-4", L([(0, 0), (1, 0), (0, 1), (1, 1)]), L([(0, 2), (1, 2), (0, 3), (1, 3)]), L([1, 2])),
+        ("vols-3-of-6", tab, tab2, L([1, 2, 3])),
         ("table-2x3-list-3", tab, tab2, L([1, 1, 1])),
         ("table-2x3-list-2", tab, tab2, L([1, 1])),
         ("table-2x3-column-2x1", tab, M([[(2, 0)], [(2, 1)]]), S(1)),
